@@ -173,7 +173,7 @@ def run(tier, seed, t0):
         tf = os.path.join(work, "trace.ndjson")
         core.write_ndjson(tf, rows)
         val = core.validate("Trace_Cartesian", "J19", tf, work, constants=VC)
-        rejected, clauses = [], Counter()
+        rejected, clauses = core.track([]), Counter()
         for t, v in zip(rows, val["verdicts"]):
             clauses[v[0]] += 1
             if v[0] != "ok":
